@@ -1379,6 +1379,11 @@ func (e *Entry) Find(name string) *Entry {
 		contextNode := e.Node
 		for e.Parent != nil {
 			e = e.Parent
+			if contextNode == nil {
+				// e.g. the input or output of an rpc that has no
+				// such statement
+				contextNode = e.Node
+			}
 		}
 		if prefix, _ := getPrefix(parts[0]); prefix != "" {
 			mod := FindModuleByPrefix(contextNode, prefix)
